@@ -84,12 +84,22 @@ def case_kwargs(case):
         kw = class_kwargs(query_classes()[case["cls"]])
         return kw, (None if kw["dialect"] is None else kw["dialect"].name)
     k = case["kind"]
-    if k == "interval":
-        return ({} if case["dr"] is None else {"dialect": _dialect(case["dr"])}), case["dr"]
-    if k == "seq":
-        return skw(case["d"]), case["d"]
+    if k in ("interval", "seq"):
+        dname = case["dr"] if k == "interval" else case["d"]
+        if "omit" not in case:
+            if k == "interval":       # the call a user writes: Interval(...).get_sql(dialect=...)
+                return ({} if dname is None else {"dialect": _dialect(dname)}), dname
+            return skw(dname), dname
+        # explicit keyword arguments with some conventions OMITTED: the callee's documented default applies
+        # (dialect -> None, quote_char -> None, secondary_quote_char -> the single quote)
+        kw = {n: v for n, v in skw(dname).items() if n not in case["omit"]}
+        return kw, (None if "dialect" in case["omit"] else dname)
     kw = dict(case.get("kw") or {})
     return kw, None
+
+
+CONVENTIONS = ["quote_char", "secondary_quote_char", "dialect"]
+SUBSETS = [[n for j, n in enumerate(CONVENTIONS) if m >> j & 1] for m in range(8)]
 
 
 def _statement(cls, pos, term):
@@ -112,9 +122,16 @@ def render_in_context(term, case):
     rendered with a placeholder term)."""
     pos = case.get("pos") or "direct"
     kw, _ = case_kwargs(case)
+    from pypika.terms import PseudoColumn
+    if pos == "cmp":        # the term as the right operand of a comparison that is rendered on its own
+        from pypika import Field
+        pre, _, post = (Field("tags") == PseudoColumn(HOLE)).get_sql(**kw).partition(HOLE)
+        text = (Field("tags") == term).get_sql(**kw)
+        if not (text.startswith(pre) and text.endswith(post) and len(text) >= len(pre) + len(post)):
+            raise FrameError("criterion %r does not have the frame %r ... %r" % (text, pre, post))
+        return text[len(pre):len(text) - len(post)]
     if case.get("cls") is None or pos == "direct":
         return term.get_sql(**kw)
-    from pypika.terms import PseudoColumn
     cls = query_classes()[case["cls"]]
     frame = _statement(cls, pos, PseudoColumn(HOLE)).get_sql()
     pre, _, post = frame.partition(HOLE)
@@ -450,11 +467,25 @@ def _again(rng, kind, p):
             out.append({"cls": rng.randrange(len(CLASS_NAMES)), "pos": rng.choice(POSITIONS)})
         elif kind == "interval":
             out.append({"dr": rng.choice(DIALECT_SEQ)})
+            _own_ctx(rng, out[-1])
         elif kind == "seq":
             out.append({"d": rng.choice(DIALECT_SEQ)})
+            _own_ctx(rng, out[-1])
         else:
             out.append({"kw": rng.choice(JSON_KW)})
     return out
+
+
+_JSON_FULL = [("quote_char", "`"), ("secondary_quote_char", "'"), ("alias_quote_char", '"')]
+JSON_KW = JSON_KW + [dict(kv for j, kv in enumerate(_JSON_FULL) if m >> j & 1) for m in range(8)]
+
+
+def _own_ctx(rng, c):
+    """own-keyword-argument contexts: omit a subset of the conventions, and/or sit in a bare comparison"""
+    if rng.random() < 0.6:
+        c["omit"] = rng.choice(SUBSETS)
+    if rng.random() < 0.3:
+        c["pos"] = "cmp"
 
 
 def gen_intervals(rng, n):
@@ -486,6 +517,8 @@ def gen_intervals(rng, n):
         cls, pos = _pick_ctx(rng, 0.4)
         if cls is not None:
             c.update({"dr": None, "cls": cls, "pos": pos})
+        else:
+            _own_ctx(rng, c)
         ag = _again(rng, "interval", 0.4)
         if ag:
             c["again"] = ag
@@ -573,6 +606,8 @@ def gen_jsons(rng, n):
             c.update({"cls": cls, "pos": pos})
         else:
             c["kw"] = rng.choice(JSON_KW)
+            if rng.random() < 0.3:
+                c["pos"] = "cmp"
         ag = _again(rng, "json", 0.25)
         if ag:
             c["again"] = ag
@@ -624,6 +659,8 @@ def gen_seqs(rng, n):
         cls, pos = _pick_ctx(rng, 0.6)
         if cls is not None:
             c.update({"d": None, "cls": cls, "pos": pos})
+        else:
+            _own_ctx(rng, c)
         ag = _again(rng, "seq", 0.35)
         if ag:
             c["again"] = ag
@@ -679,6 +716,18 @@ def corpus():
         out.append({"kind": "seq", "d": None, "t": ["array", []], "cls": cls, "pos": POSITIONS[(cls + 1) % len(POSITIONS)]})
     for kw in JSON_KW:
         out.append({"kind": "json", "v": ["d", [[["s", "k"], ["s", "v"]]]], "kw": kw})
+    # explicit keyword arguments that omit conventions: every subset x PostgreSQL-like / other dialects x empty arrays
+    # (top level, nested) x rendered on its own / inside a bare comparison
+    for d in ("POSTGRESQL", "REDSHIFT", "MYSQL", None):
+        for omit in SUBSETS:
+            for t in (["array", []], ["array", [["int", 1], ["array", []]]], ["tuple", [["array", []], ["str", "a"]]]):
+                for pos in ("direct", "cmp"):
+                    out.append({"kind": "seq", "d": d, "t": t, "omit": omit, "pos": pos})
+    for omit in SUBSETS:
+        out.append(dict(iv([0, 0, 1, 2, 0, 0, 0], dr="ORACLE"), omit=omit, pos="cmp"))
+        out.append(dict(iv([0, 0, 0, 0, 0, 3, 40], dr="POSTGRESQL"), omit=omit))
+    for kw in JSON_KW:
+        out.append({"kind": "json", "v": ["d", [[["s", "k"], ["l", [["s", "it's"], ["n"]]]]]], "kw": kw, "pos": "cmp"})
     # one object, several renderings (a module-level Interval constant used by statements of several dialects)
     out.append(dict(iv([0, 0, 1, 2, 0, 0, 0], dr="MYSQL"), again=[{"dr": None}, {"dr": "POSTGRESQL"}, {"dr": "ORACLE"}]))
     out.append(dict(iv([0] * 7, w=3, dr="POSTGRESQL"), again=[{"dr": "ORACLE"}, {"dr": None}]))
@@ -701,7 +750,7 @@ def subcases(case):
     base = {k: v for k, v in case.items() if k != "again"}
     subs = [base]
     for ctx in case.get("again") or []:
-        sub = {k: v for k, v in base.items() if k not in ("cls", "pos", "kw")}
+        sub = {k: v for k, v in base.items() if k not in ("cls", "pos", "kw", "omit")}
         sub.update(ctx)
         subs.append(sub)
     return subs
@@ -719,8 +768,8 @@ def sbuild_counted(d, counters):
 
         def counted(*a, **k):
             # Term.__hash__ / __eq__ call get_sql(with_alias=True) without a context (sets of fields when a
-            # statement validates its tables): only calls that carry the rendering context are renderings
-            if "quote_char" in k:
+            # statement validates its tables): every other call is a rendering (elements of a Tuple/Array never receive with_alias)
+            if not (k.get("with_alias") is True and len(k) == 1):
                 slot[0] += 1
             return orig(*a, **k)
         t.get_sql = counted
@@ -893,7 +942,9 @@ def oracle_interval(case, outcome):
 def _ctx_text(case):
     if case.get("cls") is not None:
         return "%s / %s" % (CLASS_NAMES[case["cls"]], case.get("pos") or "direct")
-    return "get_sql(%s)" % ", ".join("%s=%r" % kv for kv in sorted((case.get("kw") or {}).items()))
+    kw = case_kwargs(case)[0]
+    return "%sget_sql(%s)" % ("comparison." if case.get("pos") == "cmp" else "",
+                              ", ".join("%s=%s" % (a, getattr(b, "name", repr(b))) for a, b in sorted(kw.items())))
 
 
 def oracle_json(case, outcome):
@@ -977,7 +1028,7 @@ def oracle(case, outcome):
 def _ctx_full(case):
     if case.get("cls") is not None:
         return _ctx_text(case)
-    return "get_sql(dialect=%s)" % case_kwargs(case)[1] if case["kind"] != "json" else _ctx_text(case)
+    return _ctx_text(case)
 
 
 def _oracle_one(case, outcome):
@@ -1049,6 +1100,8 @@ def histogram(cases):
             inc("%s.rendered_%d_times" % (k, 1 + len(c["again"])))
         if k in ("interval", "json", "seq"):
             inc("%s.ctx=%s/%s" % (k, "own-kwargs" if c.get("cls") is None else CLASS_NAMES[c["cls"]], c.get("pos") or "direct"))
+            if c.get("cls") is None and "omit" in c:
+                inc("%s.omitted=%s" % (k, "+".join(c["omit"]) or "nothing"))
         if k == "interval":
             nz = [i for i, x in enumerate(c["vals"]) if x]
             inc("interval.nonzero_fields=%d" % len(nz))
